@@ -142,6 +142,76 @@ pub fn api<T>(label: L, f: impl FnOnce() -> T) -> Result<T, Panicked> {
     }
 }
 
+thread_local! {
+    static FOREIGN_CLOCK_READS: Cell<u64> = const { Cell::new(0) };
+    static FOREIGN_DIRECT_READS: Cell<u64> = const { Cell::new(0) };
+}
+
+/// Hook-clock reads / direct clock reads made on behalf of this thread by calls that ran on
+/// another OS thread (see `api_hop`).
+pub fn foreign_clock_reads() -> u64 {
+    FOREIGN_CLOCK_READS.with(|c| c.get())
+}
+pub fn foreign_direct_reads() -> u64 {
+    FOREIGN_DIRECT_READS.with(|c| c.get())
+}
+
+/// Runs `f` as an API region **on another OS thread** while this thread waits: the scanners are
+/// `Send + Copy`, so a host may feed on one thread and poll on another, and "moved to another
+/// thread between two calls" is one more thing the schedule decides. Exactly one thread runs at any
+/// time (the caller blocks in `join`), so the run stays a pure function of the trace. The simulated
+/// clock (per thread in the hook) travels with the call and back; allocation, panic and clock-read
+/// accounting is merged into the calling thread's counters.
+pub fn api_hop<T: Send>(label: L, f: impl FnOnce() -> T + Send) -> Result<T, Panicked> {
+    use helgoboss_midi::verif_hooks as clk;
+    let now = clk::now();
+    let step = crate::simclock::read_step();
+    let out = std::thread::scope(|s| {
+        let h = std::thread::Builder::new().spawn_scoped(s, move || {
+            clk::set_now(now);
+            clk::set_read_step(step);
+            crate::simclock::set_read_step(step);
+            let r = api(label, f);
+            (r, clk::now(), clk::clock_reads(), crate::simclock::direct_reads(), allocs_in_api())
+        });
+        match h {
+            Ok(h) => h.join().ok(),
+            Err(_) => None,
+        }
+    });
+    let (r, now2, reads, direct, allocs) = match out {
+        Some(x) => x,
+        None => {
+            eprintln!("harness error: could not run a call on a second thread");
+            std::process::exit(2);
+        }
+    };
+    clk::set_now(now2);
+    FOREIGN_CLOCK_READS.with(|c| c.set(c.get() + reads));
+    FOREIGN_DIRECT_READS.with(|c| c.set(c.get() + direct));
+    ALLOCS_IN_API.with(|c| c.set(c.get() + allocs));
+    LAST_LABEL.with(|c| c.set(label as usize));
+    CALLS.with(|c| {
+        let mut a = c.get();
+        a[label as usize] += 1;
+        c.set(a);
+    });
+    if r.is_err() {
+        PANICS.with(|c| c.set(c.get() + 1));
+    }
+    r
+}
+
+/// `api` or `api_hop`, decided by the trace.
+#[inline]
+pub fn api_on<T: Send>(hop: bool, label: L, f: impl FnOnce() -> T + Send) -> Result<T, Panicked> {
+    if hop {
+        api_hop(label, f)
+    } else {
+        api(label, f)
+    }
+}
+
 /// Runs `f`, which is expected to panic (documented panic site). Allocations made by the panic
 /// machinery itself are not counted.
 pub fn api_expect_panic<T>(label: L, f: impl FnOnce() -> T) -> Result<T, ()> {
